@@ -28,6 +28,8 @@ pub enum GK {
     OpBegin { op: String },
     OpEnd { op: String, outcome: String },
     Deliver { dest: u64, id: u64 },
+    /// threads still alive after every attach handle was dropped
+    Leak { threads: Vec<String> },
 }
 
 #[derive(Clone, Debug)]
@@ -367,6 +369,16 @@ fn global_main(plan: &Value, log: GLog, hist: History) {
         log.log(GK::OpBegin { op: "final_detach".into() });
         drop(h);
         log.log(GK::OpEnd { op: "final_detach".into(), outcome: "ok".into() });
+    }
+    // Every attach handle has been dropped (unless the plan forgets one): no writer thread of a queue that was
+    // attached may still be alive. One that is would keep the run going to the step budget, unjudged: say so and end
+    // the run here.
+    if !jb(plan, "tainting", false) {
+        let live: Vec<String> = detsim::live_threads().into_iter().filter(|(t, _)| Some(*t) != detsim::current_tid()).map(|(_, n)| n).collect();
+        if !live.is_empty() {
+            log.log(GK::Leak { threads: live });
+            detsim::abort_run();
+        }
     }
 }
 
@@ -818,6 +830,11 @@ impl Scenario for GlobalRouting {
         if !matches!(failure, Some(detsim::Failure::StepLimit { .. }) | Some(detsim::Failure::Deadlock { .. })) {
             r.violation = check_c17(plan, &h, &hs);
         }
+        if r.violation.is_none() {
+            if let Some(GK::Leak { threads }) = h.iter().map(|e| &e.k).find(|k| matches!(k, GK::Leak { .. })) {
+                r.violation = Some(Violation::new("detach_did_not_shut_down", format!("every attach handle has been dropped, but these threads are still running: {threads:?} (the writer thread of a queue-backed global sink was never told to shut down, or never exits)")));
+            }
+        }
         r.sample = Some(json!({"threads": plan.get("threads"), "ops": ops.iter().take(40).map(|o| format!("[{}..{}] t{} {} {} -> {}", o.inv, o.ret, o.tno, o.name, o.spec, o.outcome)).collect::<Vec<_>>()}));
         if r.violation.is_none() {
             match failure {
@@ -890,7 +907,16 @@ impl Scenario for GlobalDetach {
                     if rng.chance(0.5) {
                         ops.push(json!({"op":"sleep","ns": 1_000 * (1 + rng.below(60_000))}));
                     }
+                    // a quarter of the detaches: the detaching thread has a thread-local test sink installed (its own
+                    // appends are shadowed by it; the detach is as final as ever)
+                    let shadowed = mix(next_id, 77 + round) % 4 == 0;
+                    if shadowed {
+                        ops.push(json!({"op":"tl_set","g":0,"dest":60 + round,"strict":false}));
+                    }
                     ops.push(json!({"op":"detach","g":0,"in_panic": rng.chance(0.2)}));
+                    if shadowed {
+                        ops.push(json!({"op":"tl_drop","g":0}));
+                    }
                 }
             } else {
                 for _ in 0..(2 + rng.below(10)) {
